@@ -116,6 +116,8 @@ def eq_values(I, st, a, b):
         if ea.kind != eb.kind:
             if {ea.kind, eb.kind} <= {"list", "deque"}:
                 return False
+            if any(x.kind == "obj" and "__list__" in x.attrs for x in (ea, eb)):
+                raise Unsupported("== on an instance of a list subclass")
             return False
         if ea.kind in ("list", "deque"):
             return seq_eq(I, st, ea.items, eb.items)
@@ -126,6 +128,8 @@ def eq_values(I, st, a, b):
         if ea.kind == "set":
             return set(ea.items) == set(eb.items)
         if ea.kind == "obj":
+            if a.id != b.id and ("__list__" in ea.attrs or "__list__" in eb.attrs):
+                raise Unsupported("== on instances of a list subclass")
             return a.id == b.id
         if ea.kind == "symlist":
             if a.id == b.id:
@@ -378,6 +382,9 @@ def contains(I, st, container, item):
                 items = I.iterate(container, st)
                 yield st, disj([eq_values(I, st, x, item) for x in items])
                 return
+            if "__list__" in e.attrs:
+                yield from contains(I, st, e.attrs["__list__"], item)
+                return
         if e.kind == "nd":
             yield st, disj([eq_values(I, st, x, item) for x in e.data])
             return
@@ -513,6 +520,11 @@ def getitem(I, st, obj, idx):
             m, _ = I.class_lookup(e.cls, "__getitem__")
             if m is None and "__tuple__" in e.attrs:
                 yield from getitem(I, st, e.attrs["__tuple__"], idx)
+                return
+            if m is None and "__list__" in e.attrs:
+                if isinstance(idx, SliceVal):
+                    raise Unsupported("slice of an instance of a list subclass")
+                yield from getitem(I, st, e.attrs["__list__"], idx)
                 return
             if m is None:
                 yield st, exc("TypeError", "object is not subscriptable")
@@ -654,6 +666,9 @@ def setitem(I, st, obj, idx, v):
             return
         if e.kind == "obj":
             m, _ = I.class_lookup(e.cls, "__setitem__")
+            if m is None and "__list__" in e.attrs:
+                yield from setitem(I, st, e.attrs["__list__"], idx, v)
+                return
             if m is None:
                 yield st, exc("TypeError", "object does not support item assignment")
                 return
@@ -691,6 +706,9 @@ def delitem(I, st, obj, idx):
             if m is not None:
                 for st1, r in I.call(m, [obj, idx], {}, st):
                     yield st1, (r if isinstance(r, Exc) else None)
+                return
+            if "__list__" in e.attrs:
+                yield from delitem(I, st, e.attrs["__list__"], idx)
                 return
     raise Unsupported("del item on %r" % (obj,))
 
@@ -730,6 +748,8 @@ def iterate(I, st, v):
             return npmodel.nd_rows(I, st, v)
         if e.kind == "obj" and "__tuple__" in e.attrs and I.class_lookup(e.cls, "__iter__")[0] is None:
             return list(e.attrs["__tuple__"])
+        if e.kind == "obj" and "__list__" in e.attrs and I.class_lookup(e.cls, "__iter__")[0] is None:
+            return list(st.get(e.attrs["__list__"]).items)
         if e.kind == "obj":
             m, _ = I.class_lookup(e.cls, "__iter__")
             if m is not None:
